@@ -102,6 +102,15 @@ pub fn flat_types() -> Vec<Ty> {
         ty(Decimal32(9, 0), true, false),
         ty(Decimal64(12, 3), true, true),
         ty(Decimal64(18, 0), true, false),
+        // precisions on both sides of every physical-width switch of the writer (INT32 <= 9 < INT64 <= 18 <
+        // FIXED_LEN_BYTE_ARRAY; 16-byte limit at 38/39) for each Arrow decimal width that admits them
+        ty(Decimal64(9, 1), true, false),
+        ty(Decimal64(10, 1), true, false),
+        ty(Decimal128(10, 0), true, false),
+        ty(Decimal256(10, 1), true, false),
+        ty(Decimal256(19, 2), true, false),
+        ty(Decimal256(38, 5), true, false),
+        ty(Decimal256(39, 5), true, false),
         ty(Decimal128(1, 0), true, false),
         ty(Decimal128(9, 2), true, false),
         ty(Decimal128(18, 4), true, false),
@@ -232,8 +241,10 @@ pub fn leaf_alpha(dt: &DataType) -> Vec<Val> {
         // 2022-01-01 plus one millisecond is not a whole day (lossy under coerce_types, documented)
         Date64 => i(&[0, -86_400_000, 1_640_995_200_000, 1_640_995_200_001]),
         Interval(IntervalUnit::DayTime) => i(&[0, ((1i64 << 32) | 2) as i128, (((-1i64) << 32) | 0xffff_ffff) as i128, (((i32::MAX as i64) << 32) | (i32::MIN as u32 as i64)) as i128]),
-        Utf8 | LargeUtf8 | Utf8View => vec![Val::s("a"), Val::s(""), Val::s("é€"), Val::s("abcdefghijklm")],
-        Binary | LargeBinary | BinaryView => vec![Val::Bytes(vec![0]), Val::Bytes(vec![]), Val::Bytes(vec![0xff, 0xfe]), Val::Bytes((1..=13).collect())],
+        // lengths 12 / 13 / 11 straddle the inline-view limit (12 bytes); the first three letters are the
+        // ones nested leaves use
+        Utf8 | LargeUtf8 | Utf8View => vec![Val::s("abcdefghijkl"), Val::s("abcdefghijklm"), Val::s(""), Val::s("é€"), Val::s("abcdefghijk"), Val::s("a")],
+        Binary | LargeBinary | BinaryView => vec![Val::Bytes((1..=12).collect()), Val::Bytes((1..=13).collect()), Val::Bytes(vec![]), Val::Bytes(vec![0xff, 0xfe]), Val::Bytes((1..=11).collect()), Val::Bytes(vec![0])],
         FixedSizeBinary(n) => {
             let n = *n as usize;
             vec![Val::Bytes(vec![0; n]), Val::Bytes((1..=n as u8).collect()), Val::Bytes(vec![0xff; n])]
@@ -279,7 +290,9 @@ pub fn small(dt: &DataType, nullable: bool, top: bool) -> Vec<Val> {
         d if is_leaf(d) => {
             let mut a = leaf_alpha(d);
             if !top {
-                a.truncate(2);
+                // byte-like leaves keep three letters (12 bytes, 13 bytes, empty), all others two
+                let byte_like = matches!(d, Utf8 | LargeUtf8 | Utf8View | Binary | LargeBinary | BinaryView) || matches!(d, Dictionary(_, v) if matches!(v.as_ref(), Utf8 | LargeUtf8 | Utf8View | Binary | LargeBinary | BinaryView));
+                a.truncate(if byte_like { 3 } else { 2 });
             }
             with_null(a, nullable)
         }
